@@ -402,7 +402,7 @@ fn run_all(rep: &mut Report, tier: Tier) {
     rep.set("evaluations", json!(tot.execs + n + nrt));
     rep.set("distinct_nontrivial", json!(tot.with_switch + nontrivial.len() as u64));
     rep.set("deviation_bound", json!(tot.max_bound));
-    rep.set("rule", json!("E1: one evaluation = one schedule (<= bound deviations incl. timer firings) of a receiver doing try_recv / try_recv_timeout(d) [+ a second non-blocking call] then blocking recv against a task that sends small / 3-packet or drops; E2: every call sequence of length <= 3 (4 thorough) over {recv, try_recv, try_recv_timeout(d)} x pre-action {nothing, small, 3-packet, drop} that never issues a recv the ideal channel would block on, each optionally ended by a blocking recv that MUST block; timers are virtual (the value handed to poll is checked), plus 5 real-time cases for the lower bound"));
+    rep.set("rule", json!("E1: one evaluation = one schedule (<= bound deviations incl. timer firings) of a receiver doing try_recv / try_recv_timeout(d) [+ a second non-blocking call] then blocking recv against a task that sends small / 3-packet or drops; E2: every call sequence of length <= 3 (4 thorough) over {recv, try_recv, try_recv_timeout(d)} x pre-action {nothing, small, 3-packet, drop} that never issues a recv the ideal channel would block on, each optionally ended by a blocking recv that MUST block; timers are virtual (the value handed to poll is checked), plus 5 real-time cases for the lower bound; schedules are distinct by construction (the depth-first search never repeats a choice sequence) and a schedule counts as non-trivial when it contains at least one context switch; enumerated cases are distinct by construction; a call sequence counts as non-trivial when it has more than one step or ends with the blocking recv"));
     rep.assume("try_recv while a multi-packet message is half sent is unspecified (may wait for the sender); only complete messages are required to be returned");
     rep.assume("long time-outs are virtual under the scheduler: the argument of poll(2), the virtual clock (advanced by what each timed wait asked for) and a real-time lower bound for 5 durations are checked, not wall-clock accuracy");
     rep.set("builds", json!("all of the above on the OS build and again on the in-process build (keys prefixed inproc.)"));
